@@ -1919,6 +1919,73 @@ def rt_truth_history(req):
 RT['truth_history'] = rt_truth_history
 
 
+def rt_receiver_modifiers(req):
+    """methods whose modifiers name the receiver (spelled `self` or otherwise): in every admissible order of the stack the class-level
+    object and the bound one advertise the same parameters (the bound one without the receiver) and behave accordingly - the receiver
+    and `a` are refused by name, `c` by position - and looking the method up on an instance does not change what the class-level
+    object accepts"""
+    problems = []
+    K, P, A, N = modifiers.kwoargs, modifiers.posoargs, modifiers.autokwoargs, modifiers.annotate
+    for recv in ('self', 'this'):
+        stacks = {
+            'poso': [lambda f: P(recv)(f)],
+            'poso2': [lambda f: P(recv, 'a')(f)],
+            'kwo+poso2': [lambda f: P(recv, 'a')(f), lambda f: K('c')(f)],
+            'kwo+poso2+annotate': [lambda f: P(recv, 'a')(f), lambda f: K('c')(f), lambda f: N(b=int)(f)],
+            'auto+poso': [lambda f: P(recv)(f), lambda f: A(f)],
+        }
+        for sname, steps in stacks.items():
+            seen = {}
+            for order in itertools.permutations(range(len(steps))):
+                ns = {}
+                exec('def m(%s, a, b=2, c=3):\n    return (a, b, c)\n' % recv, ns)
+                f = ns['m']
+                label = '%s(%s) in order %s' % (sname, recv, order)
+                try:
+                    with warnings.catch_warnings():
+                        warnings.simplefilter('ignore')
+                        for i in order:
+                            f = steps[i](f)
+                except ValueError:
+                    continue                    # this order is not admissible (the first step alone is refused)
+                cls = type('C', (object,), {'m': f})
+                o = cls()
+
+                def refused_by_name(fn, **kw):
+                    try:
+                        fn(**kw)
+                    except TypeError:
+                        return True
+                    return False
+                before = refused_by_name(cls.m, **{recv: o, 'a': 1})
+                try:
+                    with warnings.catch_warnings():
+                        warnings.simplefilter('ignore')
+                        bound = o.m
+                        bsig = str(sigtools.signature(bound))
+                        csig = str(sigtools.signature(cls.m))
+                        r1 = bound(1)
+                except Exception as e:  # noqa
+                    problems.append('receiver-bound-raises: %s: looking the method up on an instance / calling it raises %s: %s' % (
+                        label, type(e).__name__, e))
+                    continue
+                after = refused_by_name(cls.m, **{recv: o, 'a': 1})
+                if not before or not after:
+                    problems.append('receiver-by-name: %s: C.m(%s=obj, a=1) is %s before and %s after the method was looked up on an '
+                                    'instance; %s is positional-only in %s' % (label, recv, 'refused' if before else 'ACCEPTED',
+                                                                               'refused' if after else 'ACCEPTED', recv, csig))
+                facts = (bsig, r1, refused_by_name(bound, a=1), refused_by_name(lambda: bound(1, 2, 3)))
+                seen[order] = facts
+                if recv in bsig.split('(')[1]:
+                    problems.append('receiver-kept: %s: the bound method advertises %s' % (label, bsig))
+            if len(set(seen.values())) > 1:
+                problems.append('order-dependent: %s(%s): the admissible orders disagree: %s' % (sname, recv, seen))
+    return ('ok', tuple(problems[:3]), 'probed')
+
+
+RT['receiver_modifiers'] = rt_receiver_modifiers
+
+
 _D39_SRC = '''%s
 class K:
     def __init__(self, a: int, b: str = 'x') -> None: pass
@@ -2402,6 +2469,173 @@ def rt_wrap_identity(req):
 
 
 RT['wrap_identity'] = rt_wrap_identity
+
+
+def rt_wrap_faults(req):
+    """C13 off the happy path: (1) ONE exception raised inside a signature computation of a decorated object leaves nothing behind -
+    the next inspect.signature / sigtools.signature of the same object is what a fresh twin gives; (2) when a decorator's own
+    parameter is named like a parameter of the decorated function the combination cannot be expressed: whatever IS reported (a
+    ValueError reports nothing) only accepts calls that execute"""
+    from sigtools import _signatures as _S
+    problems = []
+
+    def build():
+        @wrappers.decorator
+        def tagged(func, tag, *args, **kwargs):
+            return (tag, func(*args, **kwargs))
+
+        @wrappers.wrapper_decorator
+        def counted(func, *args, count=1, **kwargs):
+            return (count, func(*args, **kwargs))
+
+        def add(x, y):
+            return x + y
+        return {'decorator': tagged(add), 'wrapper_decorator': counted(add), 'stacked': tagged(counted(add))}
+    twins, objs = build(), build()
+    for name, obj in objs.items():
+        with warnings.catch_warnings():
+            warnings.simplefilter('ignore')
+            want = (str(inspect.signature(twins[name])), str(sigtools.signature(twins[name])))
+        real = _S.signature
+        state = {'n': 0}
+
+        class Boom(Exception):
+            pass
+
+        def faulty(o):
+            state['n'] += 1
+            if state['n'] == 1:
+                raise Boom()
+            return real(o)
+        for how, fn in (('inspect.signature', inspect.signature), ('sigtools.signature', sigtools.signature)):
+            state['n'] = 0
+            _S.signature = faulty
+            try:
+                with warnings.catch_warnings():
+                    warnings.simplefilter('ignore')
+                    try:
+                        fn(obj)
+                    except Boom:
+                        pass
+                    except Exception:  # noqa
+                        pass
+            finally:
+                _S.signature = real
+            with warnings.catch_warnings():
+                warnings.simplefilter('ignore')
+                try:
+                    got = (str(inspect.signature(obj)), str(sigtools.signature(obj)))
+                except Exception as e:  # noqa
+                    got = ('raised ' + type(e).__name__,) * 2
+            if got != want:
+                problems.append('fault-leaves-trace: after one exception inside %s of a %s object, (inspect, sigtools) report %s; a fresh twin %s' % (
+                    how, name, got, want))
+                break
+    if specifiers.as_forged.currently_computing:
+        problems.append('fault-leaves-trace: the as_forged guard still holds %d object(s)' % len(specifiers.as_forged.currently_computing))
+    # (2) inexpressible combinations
+    @wrappers.wrapper_decorator
+    def w_x(func, x, *args, **kwargs):
+        return func(x, *args, **kwargs)
+
+    @wrappers.wrapper_decorator(1)
+    def w_first(func, first, *args, **kwargs):
+        return func(first, *args, **kwargs)
+
+    def mk_xy():
+        def f_xy(x, y=10):
+            return (x, y)
+        return f_xy
+
+    def mk_none():
+        def f_none():
+            return ()
+        return f_none
+    for label, obj in (('w_x over f(x, y=10)', w_x(mk_xy())), ('w_x twice', w_x(w_x(mk_xy()))), ('wrapper_decorator(1) over f()', w_first(mk_none()))):
+        for how, fn in (('inspect.signature', inspect.signature), ('sigtools.signature', sigtools.signature)):
+            try:
+                with warnings.catch_warnings():
+                    warnings.simplefilter('ignore')
+                    sig = fn(obj)
+            except ValueError:
+                continue                 # nothing is reported
+            except Exception as e:  # noqa
+                problems.append('inexpressible-raises: %s of %s raises %s (a ValueError is what says "cannot be expressed")' % (how, label, type(e).__name__))
+                continue
+            for a, k in (((1,), {}), ((), {'x': 7}), ((1, 2), {}), ((), {}), ((1,), {'y': 2})):
+                try:
+                    sig.bind(*a, **k)
+                except TypeError:
+                    continue
+                try:
+                    obj(*a, **k)
+                except TypeError as e:
+                    problems.append('inexpressible-unsound: %s of %s reports %s, which accepts %r %r; the call raises TypeError: %s' % (
+                        how, label, sig, a, k, e))
+                    break
+    return ('ok', tuple(problems[:3]), 'probed')
+
+
+RT['wrap_faults'] = rt_wrap_faults
+
+
+def rt_eq_symmetry(req):
+    """== / != between returned signatures of objects of different kinds that carry the same data (a function, a callable
+    instance, a class, a bound method, a partial object, copies made with replace()): never raise, are bool, symmetric, consistent
+    with each other and with hash - also against the plain inspect counterparts"""
+    problems = []
+
+    def fn(a, *, k='x') -> int:
+        return 1
+
+    class Inst(object):
+        def __call__(self, a, *, k='x') -> int:
+            return 1
+
+    class Cls(object):
+        def __init__(self, a, *, k='x') -> int:     # noqa
+            pass
+
+    def fn3(z, a, *, k='x') -> int:
+        return 1
+
+    def noret(a, *, k='x'):
+        return 1
+    objs = {'function': fn, 'callable instance': Inst(), 'class': Cls, 'bound __call__': Inst().__call__,
+            'partial': functools.partial(fn3, 0), 'function without return annotation': noret}
+    sigs = {}
+    with warnings.catch_warnings():
+        warnings.simplefilter('ignore')
+        for n, o in objs.items():
+            sigs['sigtools(%s)' % n] = sigtools.signature(o)
+            sigs['inspect(%s)' % n] = inspect.signature(o)
+        base = sigs['sigtools(function)']
+        sigs['replace(upgraded_return_annotation=Empty)'] = base.replace(upgraded_return_annotation=S.EmptyAnnotation)
+        sigs['replace()'] = base.replace()
+        sigs['evaluated()'] = base.evaluated()
+    names = list(sigs)
+    for i, x in enumerate(names):
+        for y in names[i:]:
+            a, b = sigs[x], sigs[y]
+            try:
+                e1, e2, n1, n2 = (a == b), (b == a), (a != b), (b != a)
+            except Exception as ex:  # noqa
+                problems.append('comparison-raises: %s vs %s: %s' % (x, y, type(ex).__name__))
+                continue
+            if not all(isinstance(v, bool) for v in (e1, e2, n1, n2)):
+                problems.append('comparison-not-bool: %s vs %s: %r' % (x, y, (e1, e2, n1, n2)))
+            elif e1 != e2 or n1 != n2 or e1 == n1:
+                problems.append('eq-asymmetric: %s == %s is %s, the other way round %s; != gives %s / %s' % (x, y, e1, e2, n1, n2))
+            elif e1:
+                try:
+                    if hash(a) != hash(b):
+                        problems.append('eq-hash: %s == %s but their hashes differ' % (x, y))
+                except TypeError:
+                    pass
+    return ('ok', tuple(problems[:3]), 'probed')
+
+
+RT['eq_symmetry'] = rt_eq_symmetry
 
 
 def rt_window_resolution(req):
